@@ -464,6 +464,17 @@ parse_next_record_header:
     }
     else if (innerType == SSL_RECORD_TYPE_APPLICATION_DATA)
     {
+        if (!DECRYPTING_RECORDS(ssl) ||
+                (ssl->hsState != SSL_HS_DONE &&
+                        ssl->hsState != SSL_HS_TLS_1_3_WAIT_EOED))
+        {
+            /* Application data is only acceptable in a protected record,
+               after the handshake has completed or, on a server that
+               accepted early data, before EndOfEarlyData. */
+            ssl->err = SSL_ALERT_UNEXPECTED_MESSAGE;
+            psTraceErrr("Application data before handshake completion\n");
+            goto encodeResponse;
+        }
         if (ssl->hsState == SSL_HS_TLS_1_3_WAIT_EOED)
         {
             if (ssl->sec.tls13ChosenPsk != NULL &&
